@@ -6,7 +6,7 @@ VARIABLES done
 Row(w, bc, seed) == [i \in 1..Pitch(w, bc) |-> ((seed * 37 + i * 11) % 255) + 1]        \* non-zero everywhere, padding included
 Pal(np, seed) == [i \in 1..np |-> <<(i + seed) % 256, (2 * i) % 256, (510 - i) % 256, seed % 256>>]
 B(w, h, bc, np, seed) == [w |-> w, h |-> h, bc |-> bc, palette |-> Pal(np, seed), rows |-> [r \in 1..Abs(h) |-> Row(w, bc, r + seed)]]
-TS(h, seed) == [w |-> 32, h |-> h, bc |-> 8, palette |-> [i \in 1..256 |-> <<(i - 1 + seed) % 256, (255 - (i - 1)) % 256, ((i - 1) \div 2) % 256, 0>>],
+TS(h, seed) == [w |-> 32, h |-> h, bc |-> 8, palette |-> [i \in 1..256 |-> <<(i - 1 + seed) % 256, (255 - (i - 1)) % 256, ((i - 1) \div 2) % 256, (i * 5 + seed) % 256>>],     \* all four bytes of an entry are arbitrary
                 rows |-> [r \in 1..Abs(h) |-> [i \in 1..32 |-> (r * 3 + i + seed) % 256]]]
 Emit(id, steps) == PrintT("S|" \o ToJson([id |-> id, steps |-> steps]))
 \* read a foreign image (used colours possibly > 0), expect the canonical re-encoding and the flipped one
